@@ -1,5 +1,5 @@
 """What MANIFEST.json claims, per property (bin/mkmanifest.py turns this into MANIFEST.json)."""
-HOOK_COMMITS = ["49d5577", "152da9a", "e247e37", "1f4d624"]
+HOOK_COMMITS = ["49d5577", "152da9a", "e247e37", "1f4d624", "1487890"]
 NOTES = ("Every check: TLC model-checks the subsystem specification (exhaustive within the bounds reported in the evidence), "
          "the behaviours TLC emits are replayed into the real code built from /repo's working tree with -tags verif, and the recorded "
          "traces are validated by TLC against the trace specification; verdicts come only from that last step. "
